@@ -12,6 +12,7 @@ Definition opt_bind {A B} (o : option A) (f : A -> option B) : option B :=
 Definition sop_parse (t : bytes) : option sop :=
   match t with
   | [110] => Some S_New                                   (* n *)
+  | 110 :: 58 :: _ => Some S_New                          (* n:x<raw query> : the query string does not matter to the carrier layer *)
   | [102] => Some S_ReadFrom                              (* f *)
   | 114 :: r =>                                           (* r<i>:x.. *)
       match split_on COLON r with
